@@ -30,8 +30,13 @@ RULES = {
     "shutil.copy* - or to anything but a path comparison: the containment check lives in the tensor's own loader, so a fast path "
     "that reads the bytes itself (`np.fromfile(tensor.path, …)` when converting external tensors to memory) returns the contents of a "
     "file outside the model directory",
+    "R7": "the base directory is the directory the operating system opened the model from: in the functions of the I/O module that hand a "
+    "directory to `set_base_dir`, that directory is `os.path.dirname(<the path as given>)` (or of its `realpath`) - the path is not first "
+    "rewritten lexically with `os.path.abspath` / `os.path.normpath`: those collapse `link/..` without looking at the file system, so for a "
+    "model opened as `work/link/../model.onnx` with `link` a symbolic link to another directory they name `work`, not the directory the "
+    "model lives in - every external tensor is then read, and its containment checked, against the wrong directory",
 }
-FLOORS = {"R1": 6, "R2": 6, "R3": 1, "R4": 5, "R5": 1, "R6": 1}
+FLOORS = {"R1": 6, "R2": 6, "R3": 1, "R4": 5, "R5": 1, "R6": 1, "R7": 1}
 EXPLANATION = (
     "Dominator queries on ExternalTensor's methods for every file-system read primitive, a who-may-fill check "
     "on the mmap/array fields, a small abstract interpretation of _check_path_containment over path-string "
@@ -704,7 +709,38 @@ def rule_r6(ctx):
     ctx.require(n >= 1, f"only {n} uses of `<external tensor>.path` outside the class found (the writer compares it with its destination)")
 
 
+def rule_r7(ctx):
+    m = ctx.repo.module("onnx_ir._io")
+    n = 0
+    for f in ctx.repo.live(m.all_funcs):
+        if isinstance(f.node, ast.Lambda):
+            continue
+        for c in calls_in(f):
+            if not ((dotted_of(c.func) or "").endswith("set_base_dir") and len(c.args) >= 2):
+                continue
+            n += 1
+            exprs, seen, bad = [c.args[1]], set(), None
+            while exprs and bad is None:
+                e = exprs.pop()
+                for y in ast.walk(e):
+                    if isinstance(y, ast.Call) and (dotted_of(y.func) or "") in ("os.path.abspath", "os.path.normpath", "abspath", "normpath") \
+                            and not any(isinstance(q, ast.Call) and (dotted_of(q.func) or "").endswith("realpath") for q in ast.walk(y)):
+                        bad = y
+                        break
+                    if isinstance(y, ast.Name) and y.id not in seen and y.id not in f.params:
+                        seen.add(y.id)
+                        exprs += [a.value for a in own_nodes(f.node) if isinstance(a, ast.Assign) and any(isinstance(t, ast.Name) and t.id == y.id for t in a.targets)]
+            ctx.check("R7", f"{f.local}: the base directory given to `{norm(c)[:50]}` is the directory of the path as given", bad is None, f, bad if bad is not None else c,
+                      f"the base directory is computed through `{norm(bad)[:60] if bad is not None else ''}`, which rewrites the path lexically: `link/..` is collapsed without following the "
+                      "symbolic link, so the external tensors of a model opened through such a spelling get another directory than the model's own as their base - reads return the "
+                      "bytes of a same-named file there and the containment checks pass against the wrong directory",
+                      how="provenance of the directory argument of set_base_dir through locals × os.path.abspath / normpath not applied to a realpath",
+                      construct="base directory from a lexically normalised path")
+    ctx.require(n >= 1, "no call of set_base_dir found in the I/O module")
+
+
 def run(ctx):
+    rule_r7(ctx)
     rule_r6(ctx)
     rule_r5(ctx)
     rule_r1(ctx)
